@@ -796,12 +796,92 @@ def poisson_kernel_cases(ctx: Ctx):
             yield c
 
 
+# --------------------------------------------------------------------------------------------------
+# axis-length coincidences: shapes in which two axes that play different roles have the same length
+COINCIDENCES = ["frames==rows", "frames==cols", "rows==cols", "lead==rows", "all-equal"]
+
+
+def coincidence_spec(rng, name: str, mode: str, cls: str):
+    """a feasible case whose shape has the named coincidence (small sizes; the frame axis is shape[-4] in every mode,
+    in static mode it is just another broadcast axis)"""
+    small = name in ("VariableDensityPoisson", "KtRadial")
+    a, b = rng.sample([8, 9, 10, 12] if small else [8, 9, 10, 12, 13, 16], 2)
+    f = rng.choice([2, 3, 5])
+    shape = {"frames==rows": [a, a, b, 2], "frames==cols": [b, a, b, 2], "rows==cols": [f, a, a, 2],
+             "lead==rows": [a, f, a, b, 2], "all-equal": [a, a, a, a, 2] if rng.random() < 0.5 else [a, a, a, 2]}[cls]
+    if rng.random() < 0.3 and cls in ("frames==rows", "frames==cols"):
+        shape = [rng.choice([1, 2])] + shape                  # the same under a leading (batch / coil-like) axis
+    pr = G.sample_params(rng, name, shape[-3], shape[-2], True)
+    if pr is None:
+        return None
+    return {"gen": name, "mode": mode, "shape": shape, "acc": pr[0], "cf": pr[1], "seed": rng.randrange(2 ** 31),
+            "return_acs": False}
+
+
+def coincidence_cases(ctx: Ctx):
+    """correspondence on coincidence shapes: the model builds every frame from its own recorded draws, so a pattern that
+    is tiled along the wrong axis or shared between frames disagrees bit for bit"""
+    rng = ctx.rng
+    k = ctx.seed
+    for name in G.GENERATORS:
+        for mode in G.modes_of(name):
+            classes = COINCIDENCES if ctx.thorough else [COINCIDENCES[(k + j) % len(COINCIDENCES)] for j in (0, 2)]
+            k += 1
+            for cls in classes:
+                spec = coincidence_spec(rng, name, mode, cls)
+                if spec is None:
+                    continue
+                res = run(spec)
+                ln = gen_lines(spec, res)
+                if ln is None:
+                    continue
+                a = answer(res)
+                yield {"line": ln, "impl": (lambda a=a: a), "nontrivial": res.get("ok", False),
+                       "bucket": f"coincidence/{cls}/{name}/{mode}"}
+
+
+def coincidence_oracle(ctx: Ctx, seen: set, deep: bool):
+    """the documented geometry (shape, dtype, broadcast, identical rows of line masks) on every coincidence class, for every
+    generator and mode, mask and ACS"""
+    rng = ctx.rng
+    for name in G.GENERATORS:
+        for mode in G.modes_of(name):
+            for cls in COINCIDENCES:
+                for _ in range(3 if deep else 1):
+                    spec = coincidence_spec(rng, name, mode, cls)
+                    if spec is None:
+                        continue
+                    for racs in (False, True):
+                        s = dict(spec, return_acs=racs)
+                        res = run(s)
+                        ctx.count(("coincidence", json.dumps(s, sort_keys=True)), bool(res.get("ok")),
+                                  bucket=f"oracle/coincidence/{cls}/" + ("returned" if res.get("ok") else "hang" if res.get("hang")
+                                                                          else "raised-" + str(res.get("err"))))
+                        for key, what in check_geometry(s, res):
+                            if key not in seen:
+                                seen.add(key)
+                                yield Violation(key, what + f" [shape {s['shape']}: {cls}]",
+                                                {"op": "generator", "spec": s, "observed": {k2: res.get(k2) for k2 in
+                                                                                             ("ok", "shape", "dtype", "err", "msg", "hang")}})
+                        if not res.get("ok") and not res.get("hang") and not res.get("crash") and res.get("err") != "SkippedAfterHang":
+                            documented = (name == "VariableDensityPoisson" and res.get("err") == "ValueError"
+                                          and "Cannot generate mask" in res.get("msg", ""))
+                            if not documented:
+                                key = f"raises-{name}-{res.get('err')}"
+                                if key not in seen:
+                                    seen.add(key)
+                                    yield Violation(key, f"{name} raises {res.get('err')}: {res.get('msg')} for a feasible pair "
+                                                    f"[shape {s['shape']}: {cls}]",
+                                                    {"op": "generator", "spec": s, "observed": res.get("err"), "msg": res.get("msg")})
+
+
 def correspondence(ctx: Ctx):
     _kernel_budget["left"] = ctx.budget(5, 120)
     yield from kernel_cases(ctx)
     yield from poisson_kernel_cases(ctx)
     yield from generator_cases(ctx, ctx.budget(9, 240), acs=False)
     yield from malformed_cases(ctx, ctx.budget(40, 800))
+    yield from coincidence_cases(ctx)
 
 
 # --------------------------------------------------------------------------------------------------
@@ -1177,6 +1257,7 @@ def oracle(ctx: Ctx, deep: bool = False):
                             seen.add(key)
                             yield Violation(key, what, {"op": "generator", "spec": s})
     yield from forms_sites_oracle(ctx, seen, deep)
+    yield from coincidence_oracle(ctx, seen, deep)
     yield from hang_violations(seen)
     if _worker is not None:
         ctx.notes.append(f"watchdog worker: spawned {_worker.spawned}x, hangs {_worker.hangs}")
